@@ -42,31 +42,19 @@ def run(tier, seed, replay=None):
             ck.aborts.append({"what": "rand: harness exited %d: %s" % (rc, err[-300:]), "lines": []})
         ck.feed("random(n=%d)" % nr, out)
     go(5 if tier == "quick" else 7, 1500 if tier == "quick" else 100000, seed)
-    return ck.finish(ob, rule="-")
-    if not ob.get("driver_ok", True):
-        return ck.finish(ob, rule="-")
-    if replay:
-        rc, out, err = vlib.run_harness(exe, ["replay"], stdin=open(replay, "rb").read())
-        ck.feed("replay", out)
-        return ck.finish(ob, rule="replay of " + replay)
-    corpus = b"".join(open(f, "rb").read() for f in sorted(glob.glob(os.path.join(vlib.VERIF, "corpus", PROP, "*.txt"))))
-    if corpus:
-        rc, out, err = vlib.run_harness(exe, ["replay"], stdin=corpus)
-        ck.feed("corpus", out)
-
-    def go(n, sd):
-        rc, out, err = vlib.run_harness(exe, ["rand", n], env={"VERIF_SEED": str(sd)})
-        if rc != 0:
-            ck.aborts.append({"what": "harness exited %d: %s" % (rc, err[-300:]), "lines": []})
-        ck.feed("random(n=%d)" % n, out)
-    go(6000 if tier == "quick" else 150000, seed)
+    rc, out, err = vlib.run_harness(exe, ["sep", 1200 if tier == "quick" else 40000], env={"VERIF_SEED": str(seed)})
+    if rc != 0:
+        ck.aborts.append({"what": "sep: harness exited %d: %s" % (rc, err[-300:]), "lines": []})
+    ck.feed("separation pairs", out)
     return ck.finish(
         ob,
         rule="exhaustive: every labelled simple graph on 1..5 vertices (1 099 graphs; up to 7 vertices, 2.1 million graphs, in the thorough tier), vertex attributes cycling through "
              "three (name, mass) pairs; random: chains, rings, stars, trees, fused rings and disconnected mixtures up to 40 vertices with negative and large "
              "ids. per graph: parts of decoupleIsolatedSubGraphs, singleNetwork, Dist labels from three starts (the observed neighbour order is handed to the "
              "model), reduceGraph+expandGraph vertex and edge sets, BeadStructure equivalence with reversed insertion order and ids shifted by 1000, and "
-             "non-equivalence after changing one bead's name and mass",
+             "non-equivalence after changing one bead's name and mass. separation pairs: structures of 1..5 beads against a copy with one name changed, one mass "
+             "changed by a relative 1e-2 .. 1e-6 (must be reported different) or 1e-9 .. 1e-13, names chosen so that the separator-free concatenation of the node "
+             "strings coincides, and renumbered identical copies (must be reported equivalent); judged on the exact multisets of (name, mass)",
         assumptions=["structure-id label independence and reduce/expand losslessness are tied by the (exhaustive small + random) correspondence only: partial",
                      "unordered_map iteration order is observed and passed to the model; the theorems hold for every order",
                      "the two-level queue of Graph_BF_Visitor is modelled as one FIFO (same pop order)"],
